@@ -50,6 +50,7 @@ class SimLoop(asyncio.BaseEventLoop):
         self._stall_t = None
         self._stall_n = 0
         self.stall_cap = 20000
+        self.timer_slop = 0.0  # seconds every clock jump overshoots the next timer by
         self.force_running = False  # makes is_running() report True between iterations (foreign-thread model)
 
     def is_running(self):
@@ -68,7 +69,8 @@ class SimLoop(asyncio.BaseEventLoop):
             when = self._scheduled[0]._when
             if when <= self._now + timeout + 1e-12:
                 if when > self._now:
-                    self._now = when
+                    # real loops never wake exactly on time: an optional per-run lateness models scheduling latency
+                    self._now = when + self.timer_slop
                 return
         self._now += timeout
 
